@@ -80,7 +80,13 @@ func (k Keeper) ChangeExecutor(ctx context.Context, plan types.ExecutorChangePla
 		return err
 	}
 	params.BridgeExecutors = plan.NextExecutors
-	if err := k.SetParams(ctx, params); err != nil {
+
+	// the outgoing validators stay in the store (with zero power) until the end blocker
+	// removes them, so the validator count check of SetParams must not be applied here.
+	if err := params.Validate(k.authKeeper.AddressCodec()); err != nil {
+		return err
+	}
+	if err := k.Params.Set(ctx, params); err != nil {
 		return err
 	}
 	return nil
